@@ -706,6 +706,7 @@ fn keyword_named_types() -> Report {
 }
 
 pub fn run(ctx: &Ctx) -> (Spec, Report) {
+    crate::model::EXOTIC_PATHS.store(true, std::sync::atomic::Ordering::Relaxed);
     let exh = enumerate_depth2();
     let per = 40usize;
     let n_exh = (exh.len() + per - 1) / per;
@@ -847,7 +848,7 @@ pub fn run(ctx: &Ctx) -> (Spec, Report) {
     rep.merge(keyword_named_types());
     let spec = Spec {
         level: "exploration",
-        rule: format!("all {} type expressions of depth <= 2 over {{14 primitives, (), user type, generic parameter, generic instance}} closed under Vec, [T;3], [T;0], &[T], Option, &T, 8 smart pointers, generic user type and HashMap with 7 key types (exhaustive, {} programs), plus random trees of depth <= 5; positions field / newtype payload / alias target / const type (a sixth of the fields and payloads given through `serialized_as` on an opaque Rust type) / generic alias, generic newtype struct and generic tagged-enum payload whose target mentions the item's own parameters, struct variants that mention a parameter only at depth 2-3 or only as a map key (TS, Kotlin, Swift, Scala); random prefix and type_mappings tables (user types and generic bases for all backends, container instances one and two levels deep for TS/Go/Python), path qualification varied; each use site is parsed back into a tree and compared with an independent reference translation under per-language JSON-category and integer-range tables; plus user types whose own names are Swift keywords (Type, Protocol, Any) referred to from 11 positions under 3 prefixes in Swift and Kotlin, where every spelling of the name in the output must be the declared one; distinct = (language, position, depth, outer constructor)", exh.len(), n_exh),
+        rule: format!("all {} type expressions of depth <= 2 over {{14 primitives, (), user type, generic parameter, generic instance}} closed under Vec, [T;3], [T;0], &[T], Option, &T, 8 smart pointers, generic user type and HashMap with 7 key types (exhaustive, {} programs), plus random trees of depth <= 5; positions field / newtype payload / alias target / const type (a sixth of the fields and payloads given through `serialized_as` on an opaque Rust type) / generic alias, generic newtype struct and generic tagged-enum payload whose target mentions the item's own parameters, struct variants that mention a parameter only at depth 2-3 or only as a map key (TS, Kotlin, Swift, Scala); random prefix and type_mappings tables (user types and generic bases for all backends, container instances one and two levels deep for TS/Go/Python), path qualification varied (bare, std::, ::std::, alloc::, module-relative such as `collections::HashMap`); each use site is parsed back into a tree and compared with an independent reference translation under per-language JSON-category and integer-range tables; plus user types whose own names are Swift keywords (Type, Protocol, Any) referred to from 11 positions under 3 prefixes in Swift and Kotlin, where every spelling of the name in the output must be the declared one; distinct = (language, position, depth, outer constructor)", exh.len(), n_exh),
         assumptions: vec![
             "TypeScript has no nullable form at type level: an Option nested inside a container may translate to the bare element type".into(),
             "Go `int` and `uint` are taken at their guaranteed 32 bits; Python int is unbounded".into(),
